@@ -5,6 +5,7 @@ from vlib import xh
 from vlib.common import Run, Stats
 
 FUNCS = ["problog.pypl.py2pl", "problog.pypl.pl2py", "problog.extern.problog_export._convert_input/_convert_output",
+         "problog.extern.problog_export.__call__ wrapper (check_mode, bound-output unification; multi-output functions)",
          "problog.logic.list2term / term2list", "problog.logic.Constant.__init__ (FLOAT_PRECISION rounding)"]
 
 PREAMBLE = '''
@@ -25,6 +26,45 @@ def same(a, b):
     if isinstance(a, (list, tuple)):
         return len(a) == len(b) and all(same(x, y) for x, y in zip(a, b))
     return a == b
+
+
+_CAP = {}
+problog_export.add_function = staticmethod(lambda name, i, o, f, module_name=None: _CAP.__setitem__(name, f))
+
+
+@problog_export("+int", "+int", "-int", "-int")
+def sum_prod(a, b):
+    return a + b, a * b
+
+
+@problog_export("+int", "-int", "-int", "-int")
+def three(a):
+    return a, a + 1, 2 * a
+
+
+def call_ok(name, ins, outs, bound):
+    """the wrapper of an exported function with several outputs: a call succeeds exactly when every BOUND output argument
+    equals the Python result, and then returns the inputs followed by the Python results"""
+    import types
+    if name == "sum_prod":
+        py = (ins[0] + ins[1], ins[0] * ins[1])
+    else:
+        py = (ins[0], ins[0] + 1, 2 * ins[0])
+    args = [Constant(x) for x in ins]
+    expect_ok = True
+    for k, (o, b) in enumerate(zip(outs, bound)):
+        if b:
+            args.append(Constant(o))
+            if o != py[k]:
+                expect_ok = False
+        else:
+            args.append(-(k + 1))
+    res = _CAP[name](*args)
+    if not expect_ok:
+        return res == []
+    if len(res) != 1:
+        return False
+    return [int(x) for x in res[0]] == list(ins) + list(py)
 
 
 def export_roundtrip(v, t):
@@ -109,6 +149,20 @@ def main(tier, seed):
     hs.append(make(101, "exp_str", "S"))
     for j, t in enumerate(["[I]", "[S]", "[I, S]", "[S, [I]]", "[]", "[(I, S)]"]):
         hs.append(make(110 + j, "exp_list", t))
+    # exported functions with several outputs, some of them bound in the call (binding pattern enumerated, values symbolic)
+    import itertools as _it
+    k = 200
+    for name, nin, nout in (("sum_prod", 2, 2), ("three", 1, 3)):
+        for bound in _it.product([False, True], repeat=nout):
+            k += 1
+            ins = ["a%d" % i for i in range(nin)]
+            outs = ["o%d" % i for i in range(nout)]
+            sig = ", ".join("%s: int" % n for n in ins + outs)
+            pre = " and ".join("-50 <= %s <= 50" % n for n in ins + outs)
+            body = "    return call_ok(%r, [%s], [%s], %r)" % (name, ", ".join(ins), ", ".join(outs), list(bound))
+            hname = "h_call_%d" % k
+            src = 'def %s(%s) -> bool:\n    """\n    pre: %s\n    post: _\n    """\n%s\n' % (hname, sig, pre, body)
+            hs.append(xh.Harness(hname, src, {"kind": "exp_call", "template": "%s bound=%s" % (name, list(bound))}))
     timeout = 25 if tier == "quick" else 240
     run.assumptions = ["value shapes enumerated (nesting depth <= 3, lengths 0-3); strings of length <= 3, ints |v| <= 10^6",
                        "floats: witnesses only (CrossHair models floats as reals; Python's decimal rounding in Constant is not encoded)",
